@@ -335,13 +335,31 @@ fn prop(t: &mut Tape, st: &mut Stats) -> Result<(), Failure> {
         }
     }
     st.class_n("verbatim-fragments", verbatim);
+    // the two visitors the crates ship themselves (toml/src/fmt.rs DocumentFormatter and
+    // toml_edit/src/ser/pretty.rs Pretty) are overriding mutable visitors that rewrite layout and
+    // nothing else: what they print must carry exactly the data that went in
+    if let Ok(v) = toml::from_str::<toml::Value>(&r.text) {
+        let want_v = model::from_toml_value(&v);
+        for (who, res) in [
+            ("toml::to_string (DocumentFormatter)", toml::to_string(&v).map_err(|e| e.to_string())),
+            ("toml::to_string_pretty (DocumentFormatter, multi-line arrays)", toml::to_string_pretty(&v).map_err(|e| e.to_string())),
+            ("toml_edit::ser::to_string", toml_edit::ser::to_string(&v).map_err(|e| e.to_string())),
+            ("toml_edit::ser::to_string_pretty (Pretty)", toml_edit::ser::to_string_pretty(&v).map_err(|e| e.to_string())),
+        ] {
+            let text = res.map_err(|e| Failure::new("formatter", format!("{who} fails on a decoded document: {e}\n---\n{}\n---", r.text), case()))?;
+            let back: toml::Value = toml::from_str(&text).map_err(|e| Failure::new("formatter", format!("{who} printed text that does not parse: {e}\n---\n{text}\n---"), case()))?;
+            model::diff(&model::from_toml_value(&back), &want_v, Cmp::SERDE)
+                .map_err(|e| Failure::new("formatter", format!("{who} changed more than the layout: {e}\n--- input\n{}\n--- output\n{text}\n---", r.text), case()))?;
+            st.class("formatter-visitor-checked");
+        }
+    }
     st.sample(|| json!({"text": r.text, "events": expected.len(), "first_events": expected.iter().take(12).collect::<Vec<_>>()}));
     Ok(())
 }
 
 pub fn run(args: Args) -> ! {
     let mut rep = Report::new("C20", args.tier, args.seed);
-    rep.rule = "tree-first documents (values nested in arrays inside inline tables inside arrays of tables, dotted-key and implicit tables) and the valid fixtures; a recording Visit and a recording VisitMut (every method logs, then calls the default function) must produce exactly the pre-order event sequence computed from the expected model alone; the default mutable walk changes nothing; a visit_integer_mut override (+1) yields a document whose decoded tree is the input with every integer incremented and nothing else, with integer-free value fragments verbatim. non-trivial = nesting depth >= 4 and an array of tables; distinct by text".into();
+    rep.rule = "tree-first documents (values nested in arrays inside inline tables inside arrays of tables, dotted-key and implicit tables) and the valid fixtures; a recording Visit and a recording VisitMut (every method logs, then calls the default function) must produce exactly the pre-order event sequence computed from the expected model alone; the default mutable walk changes nothing; a visit_integer_mut override (+1) yields a document whose decoded tree is the input with every integer incremented and nothing else, with integer-free value fragments verbatim; the crates' own overriding visitors (DocumentFormatter, Pretty, reached through the four text serializers on the decoded document) change layout only: their output decodes to the same data. non-trivial = nesting depth >= 4 and an array of tables; distinct by text".into();
     rep.assumptions = vec!["documents whose key order is specification-ambiguous (U2.c) are skipped and counted".into(), "wrapping_add at i64::MAX in the rewrite".into()];
     if let Some(p) = &args.replay {
         let j = super::load_replay(p);
